@@ -817,6 +817,10 @@ C07_main(const char *tier, const char *replay)
     int          thorough = strcmp(tier, "thorough") == 0;
     static cfg_t cfgs[128];
     int          dmax = thorough ? 8 : 6;
+    /* the enumerated cases first: the deepening search below may use up the whole time allowance */
+    mc_round_begin("large transfers across the 1,000,000-byte buffer");
+    mc_foreach(4, big_case, NULL, 1, 300);
+    mc_round_end();
     for (int depth = thorough ? 4 : dmax; depth <= dmax; depth++) {
         char label[48];
         snprintf(label, sizeof label, "depth %d", depth);
@@ -838,8 +842,5 @@ C07_main(const char *tier, const char *replay)
         if (mc_deadline_hit())
             break;
     }
-    mc_round_begin("large transfers across the 1,000,000-byte buffer");
-    mc_foreach(4, big_case, NULL, 1, 300);
-    mc_round_end();
     return 0;
 }
